@@ -38,6 +38,6 @@ func c02BuildGuards(c c02Case, h http.HandlerFunc) (func(int, http.ResponseWrite
 }
 
 func TestVerif_C02_rest_guards_race(t *testing.T) {
-	kit.Run(t, "C02", "rest-guards-race", kit.Opts{Quick: 3000, Thorough: 120000}, c02GenFor(true),
+	kit.Run(t, "C02", "rest-guards-race", kit.Opts{Quick: 3000, Thorough: 64000}, c02GenFor(true),
 		func(c c02Case) kit.Verdict { return c02Run(t, c, c02BuildGuards, false) })
 }
